@@ -81,11 +81,11 @@ def meanAll (tbl : List (List Rat)) : Rat := mean tbl.flatten
 def normStatio {S : Type} (w L : Rat) (sliceSol : Slice) (u : S → List Rat) (samples : List S) : Rat :=
   w * sq (meanAll (samples.map fun s => sliceSol.apply (u s)) * L - 1)
 
-/-- non-stationary PINN branch: `res[t, s, :] = u(t, s)` (whole output, `slice_solution` is not
-    applied there) for the time column `ts` of the inside batch; `w * mean_t(abs(mean(res, axis=(-2,-1)) * L - 1)**2)`. -/
-def normNonStatio {T S : Type} (w L : Rat) (u : T → S → List Rat) (ts : List T) (samples : List S) :
-    Rat :=
-  w * mean (ts.map fun t => sq (meanAll (samples.map (u t)) * L - 1))
+/-- non-stationary PINN branch: `res[t, s, :] = u(t, s)[u.slice_solution]` for the time column `ts`
+    of the inside batch; `w * mean_t(abs(mean(res, axis=(-2,-1)) * L - 1)**2)`. -/
+def normNonStatio {T S : Type} (w L : Rat) (sliceSol : Slice) (u : T → S → List Rat) (ts : List T)
+    (samples : List S) : Rat :=
+  w * mean (ts.map fun t => sq (meanAll (samples.map fun s => sliceSol.apply (u t s)) * L - 1))
 
 /-! ### observations -/
 
@@ -194,11 +194,11 @@ def lossStatio {X S I κ : Type} [BEq κ] (dyn : Option (Weight × (X → List R
     rows, the normalisation term over the time column (`[:, 0:1]`) × `norm_samples`, the
     initial-condition term over the space column (`[:, 1:]`) at `t = 0`. -/
 def lossNonStatio {T X S I κ : Type} [BEq κ] (dyn : Option (Weight × (T × X → List Rat)))
-    (norm : Option (Rat × Rat × (T → S → List Rat) × List S)) (boundary : Option Rat)
+    (norm : Option (Rat × Rat × Slice × (T → S → List Rat) × List S)) (boundary : Option Rat)
     (obs : Option (ObsCfg I κ)) (ic : Option (Weight × (X → List Rat) × (X → List Rat)))
     (inside : List (T × X)) : Rat × PdeTerms :=
   evalNonStatio (dyn.map fun (w, r) => dynTerm w r inside)
-    (norm.map fun (w, L, u, samples) => normNonStatio w L u (inside.map (·.1)) samples)
+    (norm.map fun (w, L, sl, u, samples) => normNonStatio w L sl u (inside.map (·.1)) samples)
     boundary (obs.map ObsCfg.term)
     (ic.map fun (w, u0, uAt0) => icPDE w u0 uAt0 (inside.map (·.2)))
 
